@@ -5,6 +5,7 @@ CONSTANTS
   Counts <- MCCounts
   MaxPowExp = 3
   Deviations <- MCDeviations
+  Explain <- MCExplain
 INIT Init
 NEXT Next
 INVARIANTS TotalAndClosed ModularArithmetic DivisionIdentity ShiftsMoveBits BooleanAlgebra
